@@ -12,8 +12,7 @@ type case = { backend : string; cap : int; ops : (op * bool * bool) list }   (* 
 
 let id = "C18"
 let rule = "operation sequences (Write k, ReadAt(o,k), Reader.Read, SeekTo, IsValid, DataRange, Close) on memory backlogs of 1, 2, 3, 5 and 6 alignment units (4096..24576 bytes: powers of two and not) and \
-file backlogs of 4 MiB; write sizes around 1, cap-1, cap, cap+1, 2cap+5; read offsets at distance 0 (parks), 1, cap-1, cap, cap+1 behind the \
-writer and ahead of it; parked reads are woken by later writes / close; non-trivial = at least one wrap-around or one parked read; distinct by wire line"
+file backlogs of 4 MiB; write sizes around 1, cap-1, cap, cap+1, 2cap+5; read offsets at distance 0 (parks), 1, cap-1, cap, cap+1 behind the write position, 1 and 5 beyond it, and far beyond it (2^40 and the top of the uint64 range, 2^64-k with k around 1, 1000 and the capacity) - the same for SeekTo; parked reads are woken by later writes / close; non-trivial = at least one wrap-around or one parked read; distinct by wire line"
 
 let pay_byte seed i = Char.chr ((seed * 131 + i * 7 + (i lsr 8) * 13 + (i lsr 16)) land 255)
 let payload seed n = String.init n (pay_byte seed)
@@ -24,6 +23,10 @@ let fnv64 (s : string) =
 
 let align sz unit = if sz < unit then unit else (sz + unit - 1) / unit * unit
 
+(* offsets are uint64 on the Go side: a negative OCaml int v stands for 2^64 + v (the top of the range) *)
+let soff (off : int) = Printf.sprintf "%Lu" (Int64.of_int off)
+let noff (off : int) = if off >= 0 then n_of_int off else n_of_decimal (soff off)
+
 (* raw random ops; park/wake flags are then derived by running the extracted model *)
 let annotate backend cap (raw : op list) =
   let size = align cap (if backend = "file" then 4194304 else 4096) in
@@ -31,8 +34,8 @@ let annotate backend cap (raw : op list) =
   let r = ref (Model.new_ring (n_of_int cap) unit) in
   let seek = ref 0 in
   let pend_ra = ref [] and pend_rr = ref None in
-  let waits off len = (match Model.read_at !r (n_of_int len) (n_of_int off) with Model.Wait -> true | _ -> false) in
-  let adv off len = (match Model.read_at !r (n_of_int len) (n_of_int off) with Model.Data bs -> List.length bs | _ -> 0) in
+  let waits off len = (match Model.read_at !r (n_of_int len) (noff off) with Model.Wait -> true | _ -> false) in
+  let adv off len = (match Model.read_at !r (n_of_int len) (noff off) with Model.Data bs -> List.length bs | _ -> 0) in
   List.map (fun op ->
     let npend = List.length !pend_ra + (if !pend_rr = None then 0 else 1) in
     let op = match op with
@@ -71,9 +74,12 @@ let gen_seq st backend cap nops =
     | `R ->
         let len = rnd_pick st [ 0; 1; 10; 100; size; size + 10; 5000 ] in
         let d = rnd_pick st [ 0; 0; 1; 2; size - 1; size; size + 1; size / 2; rnd_int st (size + 3); -1; -5 ] in
-        RA (max 0 (!total - d), len)
+        (* one read in sixteen far beyond the write position: 2^40, and the top of the uint64 range (2^64 - k) *)
+        if rnd_int st 16 = 0 then RA (rnd_pick st [ 1 lsl 40; -1; -1000; - (1 + rnd_int st size); - size; - (size + 1) ], len)
+        else RA (max 0 (!total - d), len)
     | `RR -> RR (rnd_pick st [ 0; 1; 50; size; 3000 ])
-    | `S -> let d = rnd_pick st [ 0; 1; size - 1; size; size + 1; -1; rnd_int st (size + 2) ] in Seek (max 0 (!total - d))
+    | `S -> let d = rnd_pick st [ 0; 1; size - 1; size; size + 1; -1; rnd_int st (size + 2) ] in
+        if rnd_int st 12 = 0 then Seek (rnd_pick st [ -1; -1000; - (1 + rnd_int st size) ]) else Seek (max 0 (!total - d))
     | `V -> Valid | `D -> Range | `C -> Close) in
   { backend; cap; ops = annotate backend cap raw }
 
@@ -87,12 +93,15 @@ let gen st tier =
 let corpus = [
   { backend = "mem"; cap = 1; ops = [ (W (1, 4000), false, false); (W (2, 200), false, false); (RA (4090, 10), false, false);
                                         (RA (103, 10), false, false); (RA (104, 10), false, false); (RA (4200, 5), true, false);
-                                        (W (3, 7), false, true); (Range, false, false); (Close, false, false); (RA (4200, 5), false, false) ] } ]
+                                        (W (3, 7), false, true); (Range, false, false); (Close, false, false); (RA (4200, 5), false, false) ] };
+  (* offsets at the top of the uint64 range during the first lap of the file ring (and of a memory ring) *)
+  { backend = "file"; cap = 1; ops = annotate "file" 1 [ W (1, 5000); RA (-1, 1); RA (-1000, 10); Range; Seek (-1000); Valid; RR 1000; RA (4999, 1); RA (1 lsl 40, 1) ] };
+  { backend = "mem"; cap = 5000; ops = annotate "mem" 5000 [ W (1, 5000); RA (-1, 1); RA (-1000, 10); Seek (-1); Valid; RR 10; RA (- 8192, 4); Range ] } ]
 
 let op_str (op, parks, wakes) =
   (match op with
-   | W (s, l) -> Printf.sprintf "w%d,%d" s l | RA (o, l) -> Printf.sprintf "r%d,%d" o l | RR l -> Printf.sprintf "R%d" l
-   | Seek o -> Printf.sprintf "s%d" o | Valid -> "v" | Range -> "d" | Close -> "c")
+   | W (s, l) -> Printf.sprintf "w%d,%d" s l | RA (o, l) -> Printf.sprintf "r%s,%d" (soff o) l | RR l -> Printf.sprintf "R%d" l
+   | Seek o -> Printf.sprintf "s%s" (soff o) | Valid -> "v" | Range -> "d" | Close -> "c")
   ^ (if parks then "!" else "") ^ (if wakes then "^" else "")
 
 let to_line c = Printf.sprintf "seq %s %d %s" c.backend c.cap (String.concat ";" (List.map op_str c.ops))
@@ -115,13 +124,13 @@ let run_model c =
   let res = Array.make (List.length c.ops) "" in
   let pending = ref [] in
   let eval_read off len =
-    match Model.read_at !r (n_of_int len) (n_of_int off) with
+    match Model.read_at !r (n_of_int len) (noff off) with
     | Model.Data bs -> let s = string_of_bytes bs in `Data s
     | Model.Wait -> `Wait | Model.Invalid -> `Err "invalid" | Model.Closed -> `Err "closed" | Model.Empty -> `Data "" in
   let fmt_ra = function `Data s -> Printf.sprintf "r:%d:%s:ok" (String.length s) (fnv64 s) | `Err e -> Printf.sprintf "r:0:%s:%s" (fnv64 "") e | `Wait -> "WAIT" in
   let fmt_rr v = (match v with `Data s -> seek := !seek + String.length s | _ -> ());
-    match v with `Data s -> Printf.sprintf "R:%d:%s:ok:%d" (String.length s) (fnv64 s) !seek
-               | `Err e -> Printf.sprintf "R:0:%s:%s:%d" (fnv64 "") e !seek | `Wait -> "WAIT" in
+    match v with `Data s -> Printf.sprintf "R:%d:%s:ok:%s" (String.length s) (fnv64 s) (soff !seek)
+               | `Err e -> Printf.sprintf "R:0:%s:%s:%s" (fnv64 "") e (soff !seek) | `Wait -> "WAIT" in
   List.iteri (fun i (op, _, wakes) ->
     (match op with
      | W (s, l) ->
@@ -135,8 +144,8 @@ let run_model c =
          (match eval_read !seek len with
           | `Wait -> res.(i) <- "parked>"; pending := !pending @ [ (i, `RR len) ]
           | v -> res.(i) <- fmt_rr v)
-     | Seek off -> seek := off; res.(i) <- Printf.sprintf "s:%b" (Model.reader_valid !r (n_of_int !seek))
-     | Valid -> res.(i) <- Printf.sprintf "v:%b" (Model.reader_valid !r (n_of_int !seek))
+     | Seek off -> seek := off; res.(i) <- Printf.sprintf "s:%b" (Model.reader_valid !r (noff !seek))
+     | Valid -> res.(i) <- Printf.sprintf "v:%b" (Model.reader_valid !r (noff !seek))
      | Range -> let (lo, hi) = Model.data_range !r in res.(i) <- Printf.sprintf "d:%d:%d:ok" (int_of_n lo) (int_of_n hi)
      | Close -> r := Model.close !r; res.(i) <- "c");
     ignore wakes;
@@ -153,7 +162,7 @@ let run_model c =
      | _ -> ())) c.ops;
   (* reads still parked at the end are released by the final Close of the harness *)
   List.iter (fun (j, k) ->
-    res.(j) <- res.(j) ^ "atend:" ^ (match k with `RA _ -> Printf.sprintf "r:0:%s:closed" (fnv64 "") | `RR _ -> Printf.sprintf "R:0:%s:closed:%d" (fnv64 "") !seek)) !pending;
+    res.(j) <- res.(j) ^ "atend:" ^ (match k with `RA _ -> Printf.sprintf "r:0:%s:closed" (fnv64 "") | `RR _ -> Printf.sprintf "R:0:%s:closed:%s" (fnv64 "") (soff !seek))) !pending;
   String.concat ";" (Array.to_list res)
 
 (* the property itself, from the log of written bytes (independent of the ring model) *)
@@ -163,11 +172,14 @@ let oracle c (obs : string list) =
   let closed = ref false in
   let bad = ref None in
   let flag i msg = if !bad = None then bad := Some (Printf.sprintf "op %d (%s): %s" i (op_str (List.nth c.ops i)) msg) in
-  let check_read i off (fields : string list) =
+  let check_read i off len (fields : string list) =
     (* fields: n :: fnv :: err :: _ *)
     match fields with
     | n :: h :: err :: _ ->
         let n = int_of_string n and total = Buffer.length log in
+        if len > 0 && (off < 0 || off > total) then begin
+          if err <> "invalid" && err <> "closed" then flag i "a read at an offset beyond the write position was not refused as invalid"
+        end else
         if err = "ok" && n > 0 then begin
           if off + n > total || off + size < total then flag i "returned bytes from outside the valid window"
           else if fnv64 (Buffer.sub log off n) <> h then flag i "returned bytes differ from the bytes written at that offset"
@@ -180,7 +192,7 @@ let oracle c (obs : string list) =
     let parts = String.split_on_char ':' o in
     (match op, parts with
      | W (s, l), _ -> if not !closed then Buffer.add_string log (payload s l)
-     | RA (off, _), "r" :: rest -> check_read i off rest
+     | RA (off, len), "r" :: rest -> check_read i off len rest
      | RA (_, _), _ -> ()   (* parked: judged by the model comparison and the wake rule below *)
      | Range, [ "d"; lo; hi; "ok" ] when not !closed ->
          let total = Buffer.length log in
